@@ -18,6 +18,7 @@
 import PyTough.Model.GeoInv
 import PyTough.Proofs.GeoNames
 import PyTough.Proofs.GeoRigid
+import PyTough.Proofs.GeoEdits
 namespace Props.C10
 open Model.Geo Model.Geo.Geo Py Proofs.Geo
 
@@ -96,6 +97,36 @@ theorem raw_edits_leave_indices_stale :
       = .ok (true, true, false) ∧
     (strip2 >>= fun g => g.deleteColumn (nm 'b') >>= Geo.setupNames).map Geo.geoInv = .ok true := by
   constructor <;> decide +kernel
+
+/-! ### primitive edits
+
+`add_node`, `delete_node` (of a node no column uses), `add_well`, `delete_well` preserve the whole invariant;
+`add_layer` and `delete_layer` preserve its structural part (what they do not refresh is the known finding
+above).  The corresponding statements for `add_/delete_ column / connection` are not proved yet: they are
+covered by the correspondence and the oracle only. -/
+
+theorem add_node_preserves (g : Geo) (name : Name) (pos : Pt) (h : g.geoInv = true) :
+    (g.addNode name pos).geoInv = true := addNode_geoInv g name pos h
+
+theorem delete_node_preserves (g g' : Geo) (name : Name) (hd : g.deleteNode name = .ok g')
+    (hunused : ∀ i, g.nodeD.get? name = some i → ∀ c ∈ g.columnlist, i ∉ (g.col c).nodes)
+    (h : g.geoInv = true) : g'.geoInv = true := deleteNode_geoInv g g' name hd hunused h
+
+theorem add_well_preserves (g : Geo) (w : Well) (h : g.geoInv = true) : (g.addWell w).geoInv = true :=
+  addWell_geoInv g w h
+
+theorem delete_well_preserves (g g' : Geo) (name : Name) (hd : g.deleteWell name = .ok g') (h : g.geoInv = true) :
+    g'.geoInv = true := deleteWell_geoInv g g' name hd h
+
+theorem add_layer_preserves_structure (g : Geo) (l : Layer) (h : g.geoInv0 = true) :
+    (g.addLayer l).geoInv0 = true := addLayer_geoInv0 g l h
+
+theorem delete_layer_preserves_structure (g g' : Geo) (name : Name) (hd : g.deleteLayer name = .ok g')
+    (h : g.geoInv0 = true) : g'.geoInv0 = true := deleteLayer_geoInv0 g g' name hd h
+
+-- non-vacuity: adding an (orphan) node and deleting it again on the two-column strip
+example : (strip2 >>= fun g => (g.addNode (nm 'z') (5, 5)).deleteNode (nm 'z')).map Geo.geoInv = .ok true := by
+  decide +kernel
 
 /-! ### translating and rotating preserve the whole invariant -/
 
